@@ -78,18 +78,22 @@ Definition root_names (rows : list row) : list str :=
 Definition child_rows (rows : list row) (pname : str) : list row :=
   filter (fun r => ostr_eqb (rparent r) (Some pname)) rows.
 
-(* the loop of _recursive_add_child over the child rows of one node: the child is created, attached (Node refuses
-   a second child with the same name: TreeError), then its own children are added.  `acc` = children attached so
-   far, most recent first. *)
+(* the loop of _recursive_add_child over the child rows of one node: the child is created (Node refuses an empty
+   name: TreeError), attached (Node refuses a second child with the same name: TreeError), then its own children
+   are added.  `acc` = children attached so far, most recent first. *)
 Fixpoint attach (rec : str -> res (list tree)) (crs : list row) (acc : list tree) : res (list tree) :=
   match crs with
   | [] => Ret (rev acc)
   | r :: rest =>
-      if mem_str (rchild r) (map tname acc) then Raise TreeError
-      else match rec (rchild r) with
-           | Raise e => Raise e
-           | Ret ks => attach rec rest (T None (rchild r) (retrieve_attr r) ks :: acc)
-           end
+      match rchild r with
+      | [] => Raise TreeError
+      | _ =>
+        if mem_str (rchild r) (map tname acc) then Raise TreeError
+        else match rec (rchild r) with
+             | Raise e => Raise e
+             | Ret ks => attach rec rest (T None (rchild r) (retrieve_attr r) ks :: acc)
+             end
+      end
   end.
 
 (* _recursive_add_child(parent_node): children are looked up by the parent's *name*.  Out of fuel = Python's
@@ -114,6 +118,7 @@ Definition rel_to_tree (allow_duplicates : bool) (rows : list row) : res tree :=
   | _ =>
     if negb allow_duplicates && dup_children rows then Raise ValueError
     else match root_names rows with
+         | [[]] => Raise TreeError                               (* root node with an empty name *)
          | [root_name] =>
              match add_children (S (length rows)) rows root_name with
              | Raise e => Raise e
